@@ -99,11 +99,15 @@ func (k Keeper) CalculateBatchAllocation(ctx context.Context, auction types.Auct
 		// Note that our goal is to find the first true(matched) condition, starting
 		// from the lowest price.
 		i = (len(prices) - 1) - i
-		res, matched := types.Match(prices[i], prices, bidsByPrice, sellingAmt, allowedBidders)
-		if matched { // If we found a valid matching price, store the result
+		// The searched condition must be monotone over the prices: the total demand
+		// at this price fits the selling amount (Match returns a nil result otherwise).
+		// Whether anything is matched at all is not monotone (bids that convert to
+		// zero coins at a high price) and is read from the stored result instead.
+		res, _ := types.Match(prices[i], prices, bidsByPrice, sellingAmt, allowedBidders)
+		if res != nil { // If we found a valid matching price, store the result
 			matchRes = res
 		}
-		return matched
+		return res != nil
 	})
 
 	mInfo.MatchedLen = int64(len(matchRes.MatchedBids))
